@@ -2,6 +2,7 @@ package eventbus
 
 import (
 	"context"
+	"encoding/json"
 	"errors"
 )
 
@@ -118,3 +119,67 @@ func harnessC11Paged() { c11Run(true) }
 
 //verif:entry property=C11 tier=both bounds="streaming memory store: log length n<=N, start index k<=n, one fault of 5 kinds at position at<=N" cover="nil-complete,err-prefix" N_quick=3 N_thorough=6
 func harnessC11Stream() { c11Run(false) }
+
+//verif:entry property=C11 tier=both bounds="a log shared by two buses: own<=N events published by the replaying bus itself, then foreign<=N-own events written by a second bus on the same store (paged or streaming); Replay or ReplayWithUpcast (one raw upcaster that fails for a chosen event, error handler installed or not) from oldest or from any issued offset - including exactly the replaying bus's own last offset; complete, gap-free, nil" cover="shared-log-done" N_quick=3 N_thorough=4
+func harnessC11SharedLog() {
+	N := vParam("N", 3)
+	mem := NewMemoryStore()
+	var store EventStore = mem
+	if vBool() {
+		store = &pagedOnly{inner: mem, failAt: -1, chunk: vInt(0, 1)}
+	}
+	upErrs := 0
+	var opts []Option
+	opts = append(opts, WithStore(store))
+	if vBool() {
+		opts = append(opts, WithUpcastErrorHandler(func(t string, d json.RawMessage, err error) { upErrs++ }))
+	}
+	busA := New(opts...)
+	busB := New(WithStore(store))
+	own := vInt(0, N)
+	foreign := vInt(0, N-own)
+	for i := 0; i < own; i++ {
+		Publish(busA, evA{N: i})
+	}
+	for i := 0; i < foreign; i++ {
+		Publish(busB, evA{N: 100 + i})
+	}
+	n := own + foreign
+	all, _, rerr := mem.Read(context.Background(), OffsetOldest, 0)
+	vAssert(rerr == nil && len(all) == n, "log-holds-every-publish")
+	k := vInt(0, n)
+	from := OffsetOldest
+	if k > 0 {
+		from = all[k-1].Offset
+	}
+	withUpcast := vBool()
+	failN := vInt(0, N) // index (in the log) of the event whose upcast fails
+	calls := 0
+	if withUpcast {
+		vAssert(RegisterUpcastFunc(busA, "eventbus.evA", "eventbus.evA.v2", func(d json.RawMessage) (json.RawMessage, string, error) {
+			i := calls
+			calls++
+			if k+i == failN {
+				return nil, "", errCallback
+			}
+			return d, "eventbus.evA.v2", nil
+		}) == nil, "register-ok")
+	}
+	var got []Offset
+	cb := func(e *StoredEvent) error {
+		got = append(got, e.Offset)
+		return nil
+	}
+	var err error
+	if withUpcast {
+		err = busA.ReplayWithUpcast(context.Background(), from, cb)
+	} else {
+		err = busA.Replay(context.Background(), from, cb)
+	}
+	vAssert(err == nil, "no-fault-no-error")
+	vAssert(len(got) == n-k, "nil-implies-complete")
+	for i := range got {
+		vAssert(got[i] == all[k+i].Offset, "prefix-in-order")
+	}
+	vCover("shared-log-done")
+}
